@@ -126,6 +126,9 @@ class C20(Prop):
         if rc != 0 or not outs or outs[0] != "install-err intact=true drops_after=1":
             return [("install", "RecoverableRecorder::install with a global recorder already set did not hand the original recorder back intact",
                      dict(observed=outs, stderr=err[-500:]))]
+        g = self.global_engine(ctx)
+        if g:
+            return g
         # free-running stress (no scheduler): catches changes whose new shared accesses have no yield point
         rounds = 40 if ctx["tier"] == "quick" else 400
         lines = ["STRESS %d %d %s" % (2 + i % 5, 4000 + 1000 * (i % 7), "RD"[i % 2]) for i in range(rounds)]
@@ -136,6 +139,72 @@ class C20(Prop):
         if rc != 0 or len(outs) != rounds or fails:
             return [("stress", "free-running stress of RecoverableRecorder violated the property: " + (fails[0] if fails else "driver failed: " + err[-300:]),
                      dict(command="echo 'STRESS 4 400 R' | .cache/target/release/c20", observed=fails[:5]))]
+        return []
+
+    def global_engine(self, ctx):
+        """RecoverableRecorder::install end to end on the REAL global recorder, one script per
+        process: installs (the first succeeds, every later one must fail handing its own recorder
+        back intact and must not disturb the live one), emissions through the global recorder on
+        the main and on fresh threads, then into_inner or handle drop.  Judged by the property:
+        live until recovered / dropped (right recorder, right method), inert afterwards, the
+        recovered recorder undropped, a dropped handle drops the recorder exactly once."""
+        from .core import run_impl
+        rng = ctx["rng"].fork()
+        n = 12 if ctx["tier"] == "quick" else 100
+        scripts = [["E", "I1", "E", "F", "I2", "E", "J3", "F", "E", "R", "E", "F", "I4", "E"],
+                   ["F", "J1", "F", "E", "I2", "F", "H", "E", "F", "J3", "E"]]
+        for _ in range(n - len(scripts)):
+            ops, r = [], 1
+            for _ in range(rng.range(1, 3)):
+                ops.append(rng.pick("EF"))
+            for _ in range(rng.range(4, 12)):
+                if rng.chance(1, 3):
+                    ops.append("%s%d" % (rng.pick("IJ"), r)); r += 1
+                else:
+                    ops.append(rng.pick("EF"))
+            if rng.chance(4, 5):
+                ops.append(rng.pick("RH"))
+                for _ in range(rng.range(1, 4)):
+                    ops.append(rng.pick(["E", "F", "I%d" % r])); r += 1
+            scripts.append(ops)
+        bad = []
+        for ops in scripts:
+            rc, outs, err = run_impl(ctx["binpath"], ["GLOBAL " + " ".join(ops)], timeout=120)
+            toks = outs[0].split() if outs else []
+            live, ended, problem = None, False, None
+            if rc != 0 or len(toks) != len(ops):
+                problem = "driver failed: rc=%s %s" % (rc, err[-300:])
+            for op, t in zip(ops, toks):
+                if problem:
+                    break
+                if op[0] in "IJ":
+                    if live is None and not ended:
+                        if t != "K" + op[1:]:
+                            problem = "first install %s did not succeed: %s" % (op, t)
+                        live = op[1:]
+                    elif t != "X" + op[1:]:
+                        problem = "install %s while a global recorder is set returned %s (must fail and hand its own recorder back intact)" % (op, t)
+                elif op in ("E", "F"):
+                    want = "N" if (live is None or ended) else "V%s:1" % live
+                    if t != want:
+                        problem = "emission (%s) gave %s, expected %s (live recorder %s, %s)" % (op, t, want, live, "after recovery/drop" if ended else "handle alive")
+                elif op == "R":
+                    if live is not None and not ended:
+                        if t != "R%s:0" % live:
+                            problem = "into_inner returned %s, expected the live recorder %s undropped" % (t, live)
+                        ended = True
+                elif op == "H":
+                    if live is not None and not ended:
+                        if t != "H1":
+                            problem = "after the handle was dropped the recorder's drop count is %s, expected 1" % t[1:]
+                        ended = True
+            if problem:
+                bad.append(dict(script=" ".join(ops), observed=" ".join(toks), problem=problem))
+        ctx["coverage"]["global_install_scripts"] = len(scripts)
+        ctx["coverage"]["global_install_sample"] = " ".join(scripts[0])
+        if bad:
+            return [("global", "RecoverableRecorder installed as the real global recorder violated the property: " + bad[0]["problem"],
+                     dict(command="echo 'GLOBAL %s' | .cache/target/release/c20" % bad[0]["script"], failing=bad[:3]))]
         return []
 
 
